@@ -173,3 +173,12 @@ M("c14-2d-remainder", "C14", ST, "        array[: new_dim1 * factor1, : new_dim2
 M("c14-detrend-xsq", "C14", K, "    x_sq_sum = m * (m - 1) * (2 * m - 1) / 6", "    x_sq_sum = m * (m - 1) * (2 * m + 1) / 6")
 M("c14-median-1d-group", "C14", ST, "        return np.median(array[:nsamps_new].reshape(-1, factor), axis=1)", "        return np.median(array[array.size - nsamps_new :].reshape(-1, factor), axis=1)")
 M("c14-deredden-window", "C14", T, "        window_bins = round(window / self.header.tsamp)", "        window_bins = int(window / self.header.tsamp)", "window truncated instead of rounded (differs when window/tsamp evaluates just below an integer)")
+
+# ---- C15
+M("c15-sn-last-axis", "C15", ST, "    data = np.asanyarray(data, dtype=np.float64)\n    return apply_along_axes(_scale_sn_1d, data, axis)", "    data = np.asanyarray(data, dtype=np.float64)\n    norm = 1.1926\n    diffs = np.abs(data[..., None] - data[..., None, :])\n    median_diffs = np.median(diffs, axis=-1)\n    return norm * np.median(median_diffs, axis=axis)", "original F15a")
+M("c15-zero-scale-guard", "C15", ST, "        scale = np.where(zero_scales, 1, scale)", "        scale = np.where(zero_scales, 1e-8, scale)", "zero scale no longer falls back to unit scale: constant lanes blow up")
+M("c15-mad-norm", "C15", ST, "    mad = np.median(np.abs(data - loc), axis=axis) / norm\n", "    mad = np.median(np.abs(data - loc + 0.0625), axis=axis) / norm\n", "mad not translation consistent (offset inside abs)")
+M("c15-iqr-axis", "C15", ST, "    q25, q75 = np.percentile(data, [25, 75], axis=axis)", "    q25, q75 = np.percentile(data, [25, 75], axis=axis if axis != 0 else None)", "iqr along axis 0 computed over the whole array")
+M("c15-loc-float32", "C15", ST, "        return np.mean(data, axis=axis, keepdims=keepdims, dtype=np.float64)", "        return np.mean(data, axis=axis, keepdims=keepdims, dtype=np.float64) + (1e-3 if np.ndim(data) == 2 and axis == 1 else 0)", "mean location biased along axis 1 only")
+M("c15-zscore-axis-default", "C15", BL, "        zscore_re = stats.estimate_zscore(self.data, loc_method, scale_method, axis)", "        zscore_re = stats.estimate_zscore(self.data, loc_method, scale_method, axis if axis is not None else 1)", "block.normalise(axis=None) silently normalises per channel")
+M("c15-biweight-axis", "C15", ST, "    return astrostats.biweight_scale(data, axis=axis)", "    return astrostats.biweight_scale(data, axis=axis, c=9.0 if axis is None else 6.0)", "different tuning constant for the per-axis path")
